@@ -116,6 +116,33 @@ fn exec_here(case: &EnvCase) -> Observed {
     }
 
     let mut pre_events = 0usize;
+    let mut siblings: Vec<CelContext> = vec![];
+    for p in case.pre.iter() {
+        match p.kind {
+            PreKind::SiblingCtx(_) => {
+                let mut sib = ctx.clone();
+                for (name, e) in case.programs.iter() {
+                    if name != "main" {
+                        let _ = sib.add_program_str(name, "'stale-sibling'");
+                        let _ = ctx.add_program_str(name, &e.render(case.flat));
+                    }
+                }
+                let _ = std::panic::catch_unwind(std::panic::AssertUnwindSafe(|| sib.exec("main", &bind)));
+                siblings.push(sib);
+                pre_events = log.borrow().len().max(1);
+            }
+            PreKind::SiblingBind(_) => {
+                let mut b2 = bind.clone();
+                for (k, v) in case.bindings.iter() {
+                    b2.bind_param(k, CelValue::from_string("stale-sibling".to_string()));
+                    bind.bind_param(k, v.to_cel());
+                }
+                let _ = std::panic::catch_unwind(std::panic::AssertUnwindSafe(|| ctx.exec("main", &b2)));
+                pre_events = log.borrow().len().max(1);
+            }
+            _ => {}
+        }
+    }
     for p in case.pre.iter().filter(|p| p.late) {
         run_pre(p, &mut ctx, Some(&bind));
         // a pre-op on the case's own context may legitimately call into the environment
@@ -153,6 +180,7 @@ fn exec_here(case: &EnvCase) -> Observed {
         }
     }
     let l = log.borrow().clone();
+    drop(siblings);
     Observed { outcome, log: l, bindings_changed: changed }
 }
 
@@ -186,6 +214,7 @@ fn run_pre(p: &PreOp, ctx: &mut CelContext, bind: Option<&BindContext>) {
                 let _ = c.exec("zz_pre", b);
             }
         }
+        PreKind::SiblingCtx(_) | PreKind::SiblingBind(_) => {}
     }));
 }
 
